@@ -158,6 +158,24 @@ def _toy_pol(x):
     return np.array([out.get(p, np.zeros_like(x)) for p in PID])
 
 
+def _moment_weights(xgrid, degree, N):
+    """int x^(N-1) p_j(x) dx over [xmin, 1]."""
+    from eko.interpolation import InterpolatorDispatcher, XGrid
+
+    disp = InterpolatorDispatcher(XGrid(xgrid, log=True), degree, mode_N=False)
+    g = np.asarray(xgrid)
+    nodes, wts = np.polynomial.legendre.leggauss(24)
+    W = np.zeros(len(g))
+    for a, b in zip(g[:-1], g[1:]):
+        la, lb = np.log(a), np.log(b)
+        x = np.exp(0.5 * (lb - la) * nodes + 0.5 * (lb + la))
+        jac = 0.5 * (lb - la) * wts * x
+        for j, bf in enumerate(disp):
+            vals = np.array([bf(xx) for xx in x])
+            W[j] += float((vals * jac * x ** (N - 1.0)).sum())
+    return W
+
+
 def _weights(xgrid, degree):
     """W_j = int x p_j(x) dx and V_j = int p_j(x) dx over [xmin, 1] (Gauss-Legendre per cell in log x).
 
@@ -218,6 +236,22 @@ def evaluate_xspace(case, res):
             info["max_rel_axial_x"] = max(info.get("max_rel_axial_x", 0.0), abs(c1 - c0) / max(abs(c0), 1.0))
             if not np.isfinite(c1) or abs(c1 - c0) > 0.01 * max(abs(c0), 1.0):
                 res.fail(f"xspace/axial-{name}/order={cfg['order'][0]}", f"{where}: first moment of {name}: {c0:.6f} -> {c1:.6f}")
+    # ---- conformance of the moment probe (seam S2) with the un-stubbed x-space operator: the Mellin moments of the
+    # evolved toy PDFs must be those predicted by the probe's moment-space matrices applied to the input moments
+    pcfg = {k: v for k, v in cfg.items() if k not in ("xgrid", "degree", "cores")}
+    NS = [2.0, 3.0]
+    pm = probe.moment_solve(pcfg, NS)
+    (pep, E), = pm.items()
+    for k, N in enumerate(NS):
+        WN = _moment_weights(xgrid, case["degree"], N)
+        m_in = f0 @ WN
+        m_out = f1 @ WN
+        pred = E[k] @ m_in
+        dev = float(np.abs(m_out - pred).max() / max(1e-12, np.abs(m_out).max()))
+        info["max_probe_conformance_dev"] = max(info.get("max_probe_conformance_dev", 0.0), dev)
+        if not np.isfinite(dev) or dev > 3e-2:
+            res.fail(f"probe-conformance/N={N:g}/order={cfg['order'][0]}/{case['path'].rstrip('345')}",
+                     f"{where}: N={N} moments of the x-space result differ from the moment-probe prediction by {dev:.3e} (relative to the largest moment)")
     res.info = info
     res.outcome = f"xspace:{case['path'].rstrip('345')}:pol={int(pol)}"
 
@@ -280,7 +314,9 @@ def run(ctx):
         "down 4->3, 5->4), QED (1,1),(2,1),(2,2), exact inversion; x space: real solves on 25-40 point lambert grids (degree 3-4) applied to the "
         "Les Houches toy PDFs; non-trivial = solved"
     )
+    ctx.extra["traces_validated_against_impl"] = len(xcases)
     ctx.assumptions += [
+        "probe conformance: for every x-space card the N = 2, 3 moments of the evolved toy PDFs agree with the moment-probe prediction to 3e-2 (the accuracy of a 25-point grid at N=2 is 4e-3..8e-3; a transposition or a wrong contour gives O(1))",
         "moment-seam tolerances: 1e-11 at LO; 2e-6 (momentum) and 1e-6 (numbers) beyond, the accuracy of the parametrised NLO/NNLO anomalous dimensions and matching elements",
         "x-space integrals are those of the interpolant on [1e-5, 1], the same before and after evolution",
     ]
